@@ -14,9 +14,7 @@ WORKERS = 4
 # ---------------------------------------------------------------------------------------------------
 
 def drop_unused_helpers(p):
-    used = json.dumps(p["body"])
-    return dict(p, helpers=[h for h in p["helpers"] if f'"{h["name"]}"' in used],
-                classes=[c for c in p["classes"] if f'"{c["name"]}"' in used])
+    return A.prune_unused(p)
 
 
 def gen_prog(rng, kind, name, prop):
@@ -28,6 +26,8 @@ def gen_prog(rng, kind, name, prop):
                   calls_after_join=True, max_dec=3).program()
     elif kind == "multi":
         p = A.gen_multi_target(rng, name)
+    elif kind in ("bf", "alias", "list", "chain"):
+        p = A.gen_shape(rng, name, kind, strs=(prop == "C08"))
     elif kind == "twin":
         p = A.Gen(rng, name, ["ints", "strs", "branches", "calls"], size=rng.randint(8, 12),
                   calls_after_join=False, max_dec=3).program()
@@ -52,16 +52,22 @@ def plan(rng, prop, tier):
             files.append(gen_file(rng, "a1", ["core"] * 8, prop))
             files.append(gen_file(rng, "a2", ["core"] * 8, prop))
             files.append(gen_file(rng, "a3", ["caj"] * 5 + ["multi"] * 4, prop))
+            files.append(gen_file(rng, "s0", ["bf"] * 6 + ["alias"] * 5, prop))
+            files.append(gen_file(rng, "s1", ["list"] * 6 + ["chain"] * 4, prop))
         else:
             files += [gen_file(rng, f"a{i}", ["core"] * 10, prop) for i in range(100)]
             files += [gen_file(rng, f"j{i}", ["caj"] * 6 + ["multi"] * 4, prop) for i in range(20)]
+            files += [gen_file(rng, f"s{i}", ["bf"] * 4 + ["alias"] * 4 + ["list"] * 4 + ["chain"] * 2, prop) for i in range(40)]
     else:
         if q:
             files += [gen_file(rng, f"a{i}", ["core"] * 8, prop) for i in range(4)]
             files.append(gen_file(rng, "j0", ["caj"] * 7, prop))
+            files.append(gen_file(rng, "s0", ["bf"] * 7 + ["alias"] * 5, prop))
+            files.append(gen_file(rng, "s1", ["alias"] * 5 + ["chain"] * 5, prop))
         else:
             files += [gen_file(rng, f"a{i}", ["core"] * 10, prop) for i in range(140)]
             files += [gen_file(rng, f"j{i}", ["caj"] * 8, prop) for i in range(20)]
+            files += [gen_file(rng, f"s{i}", ["bf"] * 5 + ["alias"] * 5 + ["chain"] * 3, prop) for i in range(40)]
     return files
 
 
@@ -90,12 +96,26 @@ def evaluate_files(files, scratch):
 
 def compare_prog(p, r, ref, undefined):
     """Returns dict(bad8=[defs], bad9=[defs], corr=[defs], ref_unsound=[defs], missing=[…], compared=n, gt_error=…)."""
-    out = {"bad8": [], "bad9": [], "corr": [], "ref_unsound": [], "missing": [], "compared": 0,
+    out = {"bad8": [], "bad9": [], "corr": [], "ref_unsound": [], "missing": [], "compared": 0, "nested8": [], "stale9": [], "cap": [],
            "gt_error": r["errors"].get(p["name"]), "pyref_undefined": False, "model_undefined": p["name"] in undefined}
-    exact = A.pyref(p, r["defs"])
+    exact, info = A.pyref(p, r["defs"], with_taint=True)
     if exact is None:
         out["pyref_undefined"] = True
         exact = {}
+    # helpers invoked from helpers: their P3 tables are keyed by a context that is one call site deep
+    nested = set()
+    for h in p.get("helpers", []):
+        for stt in h["body"]:
+            if stt[0] == "call":
+                nested.add(stt[2])
+            elif stt[0] == "callp":
+                nested.add(stt[1])
+    # finding call-site-cap-stale-summary: main-body calls (straight-line order) of helpers that themselves call a helper
+    forwarders = {h["name"] for h in p.get("helpers", []) if any(stt[0] in ("call", "callp") for stt in h["body"])}
+    calls_of = {}
+    for k, stt in enumerate(p["body"]):
+        if stt[0] == "call" and stt[2] in forwarders:
+            calls_of.setdefault(stt[2], []).append([k])
     for d, why in r["missing"]:
         if d["prog"] == p["name"]:
             out["missing"].append({"line": d["line"], "var": d["var"], "why": why})
@@ -112,10 +132,45 @@ def compare_prog(p, r, ref, undefined):
         out["compared"] += 1
         entry = {"line": d["line"], "var": d["var"], "kind": d["kind"], "sid": d["sid"], "ground_truth": g, "real": real,
                  "reference": e, "model": m}
+        if d["sid"] and d["sid"][0] == "h" and d["sid"][1] in nested:
+            # finding C08/nested-context-overwritten: the table holds the LAST analysis of the inner helper only.
+            # Model-predicted: it must hold at least one complete invocation; precision is not judged here.
+            invs = info["invocations"].get(k, [])
+            if any(not A.covers(real, v) for v in g):
+                if len(invs) >= 2 and any(all(A.covers(real, v) for v in inv) for inv in invs):
+                    out["nested8"].append(entry)
+                else:
+                    out["bad8"].append(entry)
+            continue
+        if d["kind"] == "call" and len(d["sid"]) == 1 and e is not None and real != e:
+            # third and later call of a forwarding helper: the inner call site is past MAX_ANALYSIS_ROUND_FOR_CALL_SITE and
+            # the summary of its second analysis is applied again.  Model-predicted: the result equals the second call's.
+            stt = p["body"][d["sid"][0]]
+            sites = calls_of.get(stt[2], []) if stt[0] == "call" else []
+            if d["sid"] in sites and sites.index(d["sid"]) >= 2:
+                second = [x for x in r["defs"] if x["prog"] == p["name"] and x["sid"] == sites[1]]
+                if second and real == exact.get(A.def_key(second[0])):
+                    out["cap"].append(entry)
+                    continue
+        if d["sid"] and d["sid"][0] == "h" and d["sid"][1] in forwarders and len(calls_of.get(d["sid"][1], [])) >= 3 \
+                and e is not None and real != e:
+            # the same finding seen inside the forwarding helper: its third and later invocations repeat the second
+            invs = info["invocations"].get(k, [])
+            first_two = sorted({json.dumps(v) for inv in invs[:2] for v in inv})
+            if len(invs) >= 3 and sorted(json.dumps(v) for v in real) == first_two:
+                out["cap"].append(entry)
+                continue
         if any(not A.covers(real, v) for v in g):
             out["bad8"].append(entry)
         if e is not None and real != e:
-            out["bad9"].append(entry)
+            st = info["stale"].get(k, [])
+            extra = [v for v in real if v not in e]
+            if st and all(v in real for v in e) and (["*", "*"] in st or all(v in st for v in extra)):
+                # finding C09/callee-write-keeps-old: exactly the values the cell held before a callee-side write
+                entry["stale_allowed"] = st
+                out["stale9"].append(entry)
+            else:
+                out["bad9"].append(entry)
         if m is not None and real != m:
             out["corr"].append(entry)
         if m is not None and any(not A.covers(m, v) for v in g):
@@ -128,7 +183,10 @@ def first_def(prog, defs, entries):
     return min(entries, key=lambda e: e["line"])
 
 
-def clean(cmp):
+def clean(cmp, prop="C09"):
+    """C08 judges coverage (and, where the Lean reference is defined, agreement with it); C09 judges exactness."""
+    if prop == "C08":
+        return not (cmp["bad8"] or cmp["missing"] or cmp["gt_error"])
     return not (cmp["bad8"] or cmp["bad9"] or cmp["missing"] or cmp["gt_error"])
 
 
@@ -183,7 +241,23 @@ def run_program_part(ctx, st, scratch, prop):
                 continue
             if cmp["missing"]:
                 stats["missing_defs"] += len(cmp["missing"])
-            if clean(cmp) and not cmp["corr"] and not cmp["ref_unsound"]:
+            if cmp["nested8"] and prop == "C08":
+                e = cmp["nested8"][0]
+                st["known"].append(("C08/nested-context-overwritten",
+                                    f"definition inside a helper that is invoked from another helper: the P3 tables keep only the last analysis of that "
+                                    f"context (context id is one call site deep): line {e['line']} `{r['text'].splitlines()[e['line'] - 1].strip()}` "
+                                    f"ground truth {e['ground_truth']} abstract {e['real']}"))
+            if cmp["cap"]:
+                e = cmp["cap"][0]
+                st["known"].append((f"{prop}/call-site-cap-stale-summary",
+                                    f"third call of a helper that calls a helper: the inner call site is past MAX_ANALYSIS_ROUND_FOR_CALL_SITE and the summary of "
+                                    f"its second analysis is applied: line {e['line']} `{r['text'].splitlines()[e['line'] - 1].strip()}` ground truth {e['ground_truth']} abstract {e['real']}"))
+            if cmp["stale9"] and prop == "C09":
+                e = cmp["stale9"][0]
+                st["known"].append(("C09/callee-write-keeps-old",
+                                    f"a field written inside a callee through a parameter keeps the value it had before the call: line {e['line']} "
+                                    f"`{r['text'].splitlines()[e['line'] - 1].strip()}` exact {e['reference']} abstract {e['real']}"))
+            if clean(cmp, prop) and not cmp["corr"] and not cmp["ref_unsound"]:
                 stats["programs_clean"] += 1
                 bs["clean"] += 1
                 st["nontrivial"].add(json.dumps(p, sort_keys=True))
@@ -210,8 +284,8 @@ def run_program_part(ctx, st, scratch, prop):
                                     f"field write through a receiver that may denote two objects replaces the field of both: line {e['line']} "
                                     f"`{r['text'].splitlines()[e['line'] - 1].strip()}` ground truth {e['ground_truth']} abstract {e['real']}"))
             continue
-        relevant = cmp["bad8"] if (prop == "C08" and cmp["bad8"]) else (cmp["bad9"] or cmp["bad8"] or cmp["corr"])
-        if A.has_branch(p) and A.join_revisit_shape(p, relevant):
+        relevant = cmp["bad8"] if (prop == "C08" and cmp["bad8"]) else ((cmp["bad9"] if prop == "C09" else []) or cmp["bad8"] or cmp["corr"])
+        if A.has_branch(p) and A.join_revisit_shape(p, r["defs"], relevant):
             acct["sent_to_specialisation"] += 1
             need_spec.append((f, p, cmp, r))
             continue
@@ -239,7 +313,7 @@ def run_program_part(ctx, st, scratch, prop):
                 sref, sundef = A.aref_batch(index[n], sr["defs"])
                 for sp in index[n]:
                     c2 = compare_prog(sp, sr, sref, sundef)
-                    if not clean(c2):
+                    if not clean(c2, prop) or c2["corr"]:
                         bad_spec = (sp, c2)
                         break
             if bad_spec is None:
@@ -297,8 +371,8 @@ def record_violation(ctx, st, prop, p, r, cmp):
         if cmp["bad8"]:
             e = first_def(p, r["defs"], cmp["bad8"])
             st["failing"].append(prog_failure(prop, p, r, cmp, "a concrete value is not covered by the abstract value set of the definition", e))
-        elif cmp["corr"] or cmp["bad9"] or cmp["ref_unsound"]:
-            e = (cmp["corr"] or cmp["bad9"] or cmp["ref_unsound"])[0]
+        elif cmp["corr"] or cmp["ref_unsound"]:
+            e = (cmp["corr"] or cmp["ref_unsound"])[0]
             st["corr"].append({"model": "LianVerif.Aref.run (reference abstract interpreter)", "program": A.render_file([p])[0],
                                "definition": e})
     else:
